@@ -744,6 +744,11 @@ def discharge(fb, body, s):
         ln, ix = res.lin(ops[0]), res.lin(ops[1])
         if ln is not None and ix is not None and prove(lin_facts, ix.add(ln, -1).add(Lin(1)), unsigned):
             return "index proved < len from dominating guards"
+        # `TABLE[e as usize]`: the index is the discriminant of a workspace enum, every value of which is below the constant length
+        n = ops[0].get("int") if ops[0].get("k") == "const" else None
+        dv = _discr_values(fb, body, res, ops[1])
+        if n is not None and dv and all(0 <= v < min(n, 128) for v in dv[1]):      # < 128: unchanged by any integer cast on the way
+            return f"index is the discriminant of `{dv[0]}` (values {sorted(dv[1])}), all below the constant length {n}"
         return None
     if w == "Overflow(Add)" and len(ops) == 2 and _unsigned_op(body, ops[0]):
         # x + c cannot overflow when x < some len (<= isize::MAX) and c is small
@@ -755,6 +760,34 @@ def discharge(fb, body, s):
                     return "operand bounded by a length (<= isize::MAX) plus a small constant"
         return None
     return None
+
+
+def _discr_values(fb, body, res, op, depth=0):
+    """(enum path, discriminant values) when the operand is `discriminant(place)` of a workspace enum, possibly through integer
+    casts / moves; None otherwise (foreign enum, unknown discriminants, or anything else)."""
+    if op.get("k") not in ("copy", "move") or op["pl"].get("p") or depth > 6:
+        return None
+    d = res.single_def(op["pl"]["l"])
+    if not d or d[0] != "assign":
+        return None
+    r = d[1]
+    if r.get("k") in ("cast", "use") and isinstance(r.get("op"), dict):
+        if r.get("k") == "cast" and r.get("ck") not in (None, "IntToInt"):
+            return None
+        return _discr_values(fb, body, res, r["op"], depth + 1)
+    if r.get("k") != "discr":
+        return None
+    ty = _place_type(body, r["pl"])
+    if not ty:
+        return None
+    ty = re.sub(r"^(&(mut )?)+", "", ty)
+    a = fb.adt_by_path.get(ty) or fb.adt_by_path.get(f"{body.get('crate')}::{ty}")
+    if not a or a.get("kind") != "Enum" or not a.get("variants"):
+        return None
+    vals = [v.get("discr") for v in a["variants"]]
+    if any(v is None for v in vals):
+        return None
+    return a["path"], [int(v) for v in vals]
 
 
 def _array_len(body, res, op, depth=0):
